@@ -70,6 +70,11 @@ def builder_case(draw, n_max=7, builder_names=BUILDERS, container_names=None, eq
         mat = draw(R.count_matrices(n_min=1, n_max=min(n_max, mle_nmax), connected=True, max_ratio=100, dtypes=dtypes))
     else:
         mat = draw(R.count_matrices(n_min=1, n_max=n_max, connected=connected, dtypes=dtypes))
+    if mat["flavour"] == "real" and draw(st.integers(0, 3)) == 0:
+        # weighted / rescaled counts of tiny magnitude (every entry below 1e-8): the same model as for the unscaled counts
+        mat["C"] = [[v * 1e-10 for v in row] for row in mat["C"]]
+        mat["flavour"] = "real_tiny"
+        prior_kinds = ("none",)
     case = {"builder": b, "mat": mat,
             "prior": draw(R.priors(mat["n"], kinds=prior_kinds or ("none", "none", "int", "float", "matrix"))),
             "eq": draw(st.booleans()) if eq is None else eq}
